@@ -400,6 +400,12 @@ static void on_report(struct sim *s, const uint8_t *p, uint32_t len)
 				}
 				(void)rel;
 			}
+			if (!code_ok && ex->ncand == 1 && ex->cand[0].code == 8) {
+				/* C13 names the report: a PDU of another version than the negotiated one is refused with
+				 * Unexpected Protocol Version (8), whatever the foreign version byte is */
+				snprintf(key, sizeof(key), "C13:foreign-version-refused-with-code-%u", code);
+				viol("C13", key, "a PDU whose version differs from the negotiated one was refused with Error Report code %u instead of 8 (%s)", code, dname(s));
+			}
 			if (!code_ok) {
 				snprintf(key, sizeof(key), "C14:wrong-error-code:%s:got-%u", dname(s), code);
 				viol("C14", key, "violation %s: client reported code %u, expected %d%s", dname(s), code, ex->cand[0].code,
@@ -459,6 +465,14 @@ void sim_on_client_bytes(struct sim *s, const uint8_t *b, size_t n)
 			fprintf(stderr, " %02x", b[i]);
 		fprintf(stderr, "\n");
 	}
+	if (w->cut && !w->cut_reported) {
+		/* the cache holds the head of a PDU whose remainder was never written: whatever follows on this connection -
+		 * a second copy of that PDU included - reaches it as garbage.  The connection has to be given up. */
+		w->cut_reported = true;
+		viol("C14", "C14:bytes-after-a-write-failed-inside-a-pdu", "a write failed after %u bytes of a PDU had been accepted, and %zu more bytes were handed to the transport on the same connection",
+		     w->len, n);
+	}
+	CNT(w->cut ? "c14/writes_after_a_cut_pdu" : "c14/writes_on_intact_streams");
 	if (w->broken)
 		return;
 	if (w->len + n > sizeof(w->buf)) {
